@@ -411,7 +411,8 @@ Next == \/ /\ depth = 0 /\ depth' = 1 /\ e' \in { x \in First : Gen(x) }
         \/ /\ depth >= 1 /\ depth < MaxDepth /\ depth' = depth + 1
            /\ CASE Mode = "wrap" -> e' \in Wraps(e)
                 [] Mode = "fn" -> e' \in FnOuter(e)
-                [] Mode \in {"frac", "fracdoc"} -> e' \in FracOuter(e)
+                \* (an expression that is an error on every document of the mode is not wrapped further: the wrap is that error again)
+                [] Mode \in {"frac", "fracdoc"} -> ~(\A i \in 1..Len(DocSel) : Search(e, DocsN[DocSel[i]])[1] = "err") /\ e' \in FracOuter(e)
                 [] Mode = "fracarr" -> e' \in FracArrWraps(e)
                 [] OTHER -> FALSE
 View == e
@@ -478,7 +479,7 @@ ValueLaws(R) ==
        /\ E1(Cmp("eq", Cur, Cur), R) = JBool(TRUE) /\ E1(Cmp("ne", Cur, Cur), R) = JBool(FALSE)
        /\ E1(Fn("not_null", <<Cur, I(1)>>), R) = (IF R[1] = "null" THEN JInt(1) ELSE R)
        /\ E1(Fn("type", <<Cur>>), R)[1] = "str"
-\* numbers: results are canonical; floor(x) <= x <= ceil(x), both integers, equal iff x is one; abs(x) is x or its negative and
+\* numbers (checked in every mode but the big "wrap" runs, whose number results are integers): results are canonical; floor(x) <= x <= ceil(x), both integers, equal iff x is one; abs(x) is x or its negative and
 \* not negative; a one-element sum / avg / max / min is the element; to_number undoes to_string; trichotomy against 1.5;
 \* sum is order-independent; avg * length = sum and min <= avg <= max
 One(x) == <<"mls", <<x>>>>
@@ -522,6 +523,6 @@ StableLaw(d) == LET arr == IF IsArrV(d) THEN d ELSE E1(Fa, d)
                           \/ VLess(x[KK], y[KK])
                           \/ (x[KK] = y[KK] /\ x[KID][2] < y[KID][2])
 Identities == depth >= 1 /\ Mode # "docs" =>
-  /\ \A i \in 1..Len(DocSel) : LET d == DocsN[DocSel[i]]  R == E1(e, d) IN ExprLaws(e, d) /\ (Abn(R) \/ (ValueLaws(R) /\ NumLaws(R)))
+  /\ \A i \in 1..Len(DocSel) : LET d == DocsN[DocSel[i]]  R == E1(e, d) IN ExprLaws(e, d) /\ (Abn(R) \/ (ValueLaws(R) /\ (Mode = "wrap" \/ NumLaws(R))))
   /\ (Mode = "stable" => \A i \in 1..Len(DocSel) : StableLaw(DocsN[DocSel[i]]))
 =============================================================================
